@@ -5,6 +5,9 @@
         open spec fn parse_ok(b: Seq<u8>, v: Self) -> bool {
             match v {
                 Self::Ack(x) => b.len() >= 2 && b[0] == 128 && b[1] == 0 && zvt_builder::tid_of(x) == 8 /* packets::Ack */ && zvt_builder::zd_ok_of(b, x),
+                // a variant the frozen reply table does not know can never be a correct result
+                #[allow(unreachable_patterns)]
+                _ => false,
             }
         }
         /// the command's reply set
